@@ -154,6 +154,19 @@ CHECKS = {
              "covered only through the record-level obligations. " + ENGINE_NOTE,
         technique="solver-based path-exhaustive symbolic execution of the real code (z3, linear real arithmetic per path)",
     ),
+    "C11": dict(
+        category="model_checking",
+        text="Induction step over call histories: the real main.pinch_analysis_service is executed symbolically (one stream "
+             "temperature a z3 real, input as dictionary and as a reused validated model) and on every feasible path the deep structural "
+             "snapshot of the package state (data globals, function defaults incl. mutable default arguments, plain class attributes of every "
+             "loaded OpenPinch module) after the call equals the one before, the caller's input object is unchanged, and in an explicit "
+             "A, B, A history the third result equals the first, the first result object is untouched and every result's graph sets are "
+             "exactly its own records. State-preservation per call gives history independence for histories of any length.",
+        design_ref="5/C11",
+        note="Problems of two streams; pydantic TargetInput/TargetOutput/UtilitySchema are pass-through stand-ins in symbolic runs (the concrete "
+             "replay of every 4th path model runs the real validation); PinchProblem load/target/export sequences are C16's part. " + ENGINE_NOTE,
+        technique="solver-based symbolic execution of the real service (z3) with a structural state-snapshot invariant (induction step)",
+    ),
 }
 
 NOT_YET = {}
